@@ -13,7 +13,8 @@ W2 == {"scope", "jump"}
 FamCore == Fam(2, 2, 2, {"c", "a", "B"}, {"2"}, {"g"}, IJ, IJ, {"2", "-1"}, W2, None, None, None)
 FamCore0 == Fam(2, 2, 2, {"c", "a", "B"}, {"2"}, {"sqr", "g"}, {"i", "j", "0"}, IJ, {"2", "-1"}, AllWraps, None, None, None)
 \* every rule-breaking constructor / every token corruption and the whitespace style, small vocabulary
-FamMut == Fam(2, 2, 2, {"c", "a"}, {"2"}, {"g"}, {"i"}, {"i"}, {"2"}, {"scope"}, AllMuts, None, None)
+FamMut == Fam(2, 1, 2, {"c", "a"}, {"2"}, {"g"}, {"i"}, {"i"}, {"2"}, {"scope"}, AllMuts, None, None)
+FamMut2 == Fam(2, 2, 2, {"c", "a"}, {"2"}, {"g"}, {"i"}, {"i"}, {"2"}, {"scope"}, AllMuts, None, None)
 FamMut3 == Fam(3, 2, 3, {"c"}, {"2"}, None, None, None, {"2"}, None, {"number-position", "repeated-power", "repeated-fraction", "misplaced-minus"}, None, None)
 FamCor == Fam(2, 2, 2, {"c", "a"}, {"2"}, {"g"}, {"i"}, {"i"}, {"2"}, {"mean"}, None, AllCors, {1})
 \* one leaf: numerals, traces, selections on arrays of rank 1..3
